@@ -184,7 +184,7 @@ func (w *world) buildGenesis(nVals int) {
 	if c.Prop == "C20" {
 		w.dexGenesis()
 	}
-	if c.Prop == "C14" {
+	if c.Prop == "C14" || c.Prop == "C12" && t.Chance(1, 2) {
 		w.slashGenesis()
 	}
 	if c.Prop == "C05" || c.Prop == "C06" {
